@@ -1,0 +1,13 @@
+//go:build verif
+// +build verif
+
+package wal
+
+// lemmaFrameRoundTrip: the frame header written by the encoder is read back by
+// the decoder as the same (length, padding); a zero header is produced only for
+// an empty record (the decoder treats a zero header as end of data).
+func lemmaFrameRoundTrip(n int) (recBytes int64, padBytes int64, lenField uint64, pad int) {
+	lenField, pad = encodeFrameSize(n)
+	recBytes, padBytes = decodeFrameSize(int64(lenField))
+	return
+}
